@@ -95,6 +95,21 @@ func (in *Interp) wrapU(t *Term, w int, bound *big.Int) *Term {
 	if bound != nil && bound.Cmp(pow2(w)) < 0 {
 		return t
 	}
+	if t.op == "iconst" {
+		return in.iop("mod", t, in.ts.IntC(pow2(w)))
+	}
+	// wrap elimination: if the path condition excludes overflow, no mod is emitted
+	if in.ex.implied(in.ts.Op("<", 0, t, in.ts.IntC(pow2(w)))) {
+		return t
+	}
+	return in.iop("mod", t, in.ts.IntC(pow2(w)))
+}
+
+// wrapUSub wraps x-y (may be negative).
+func (in *Interp) wrapUSub(t *Term, w int) *Term {
+	if t.op != "iconst" && in.ex.implied(in.ts.Op(">=", 0, t, in.ts.IntU(0))) {
+		return t
+	}
 	return in.iop("mod", t, in.ts.IntC(pow2(w)))
 }
 
@@ -110,6 +125,12 @@ func (in *Interp) symI(t *Term, w int, signed bool, kz uint64, parts []part) V {
 
 func (in *Interp) wrapS(t *Term, w int) *Term {
 	h := in.ts.IntC(pow2(w - 1))
+	if t.op != "iconst" {
+		inRange := in.ts.Op("and", 0, in.ts.Op(">=", 0, t, in.ts.IntC(new(big.Int).Neg(pow2(w-1)))), in.ts.Op("<", 0, t, h))
+		if in.ex.implied(inRange) {
+			return t
+		}
+	}
 	return in.iop("-", in.iop("mod", in.iop("+", t, h), in.ts.IntC(pow2(w))), h)
 }
 
@@ -139,6 +160,36 @@ func (in *Interp) intBinopI(op token.Token, x, y Int) V {
 			return in.symI(in.wrapS(in.iop("-", xt, yt), w), w, true, 0, nil)
 		case token.MUL:
 			return in.symI(in.wrapS(in.iop("*", xt, yt), w), w, true, 0, nil)
+		case token.QUO, token.REM:
+			isZero := in.mkBool(in.ts.Op("=", 0, yt, in.ts.IntU(0)))
+			if in.truth(isZero) {
+				panic(goPanic{Str{S: "integer divide by zero"}})
+			}
+			// Go truncates toward zero; SMT-LIB div is Euclidean. Build the truncated quotient from |x| div |y|.
+			z := in.ts.IntU(0)
+			neg := func(t *Term) *Term { return in.iop("-", z, t) }
+			abs := func(t *Term) *Term {
+				if t.op == "iconst" {
+					return in.ts.IntC(new(big.Int).Abs(t.val))
+				}
+				return in.ts.Op("ite", -1, in.ts.Op(">=", 0, t, z), t, neg(t))
+			}
+			qa := in.iop("div", abs(xt), abs(yt))
+			var sameSign *Term
+			if yt.op == "iconst" {
+				if yt.val.Sign() > 0 {
+					sameSign = in.ts.Op(">=", 0, xt, z)
+				} else {
+					sameSign = in.ts.Op("<=", 0, xt, z)
+				}
+			} else {
+				sameSign = in.ts.Op("=", 0, in.ts.Op(">=", 0, xt, z), in.ts.Op(">=", 0, yt, z))
+			}
+			q := in.ts.Op("ite", -1, sameSign, qa, neg(qa))
+			if op == token.QUO {
+				return in.symI(in.wrapS(q, w), w, true, 0, nil)
+			}
+			return in.symI(in.iop("-", xt, in.iop("*", q, yt)), w, true, 0, nil)
 		}
 		panic(unsupported("INT mode: signed " + op.String()))
 	}
@@ -151,9 +202,19 @@ func (in *Interp) intBinopI(op token.Token, x, y Int) V {
 		}
 		return in.symI(in.wrapU(in.iop("+", xt, yt), w, b), w, false, 0, nil)
 	case token.SUB:
-		return in.symI(in.iop("mod", in.iop("-", xt, yt), in.ts.IntC(pow2(w))), w, false, 0, nil)
+		if x.S == nil && new(big.Int).SetUint64(x.C).Cmp(maxVal(y)) >= 0 {
+			return in.symI(in.iop("-", xt, yt), w, false, 0, nil)
+		}
+		return in.symI(in.wrapUSub(in.iop("-", xt, yt), w), w, false, 0, nil)
 	case token.MUL:
 		b := new(big.Int).Mul(maxVal(x), maxVal(y))
+		if b.Cmp(pow2(w)) < 0 {
+			return in.symI(in.iop("*", xt, yt), w, false, 0, nil)
+		}
+		if x.S != nil && y.S != nil {
+			// symbolic*symbolic: asking the solver whether it can overflow is itself non-linear; keep the explicit wrap
+			return in.symI(in.iop("mod", in.iop("*", xt, yt), in.ts.IntC(pow2(w))), w, false, 0, nil)
+		}
 		return in.symI(in.wrapU(in.iop("*", xt, yt), w, b), w, false, 0, nil)
 	case token.QUO, token.REM:
 		isZero := in.mkBool(in.ts.Op("=", 0, yt, in.ts.IntU(0)))
